@@ -32,7 +32,7 @@ CLAIMED = {
         technique="MIR guard-edge dominance + interprocedural caller-chain check for constant-0 ring positions; must-pass-through; field-set agreement + strict guard relation for the sentinel slot",
         text="Partial: the ring invariants the WAL code relies on are decided on all paths - a ring position becomes 0 only where pending_bytes == 0 is established "
              "(in the function or at every caller), an append writes only after both capacity comparisons and is always followed by the sentinel, a checkpoint stores "
-             "exactly the reviewed fields from write_head/sequence, scan reports a record only after checksum equality and bounds, records_after filters strictly by sequence. The zero sentinel is written only where pending_bytes < region_size (a full ring has no free slot).",
+             "exactly the reviewed fields from write_head/sequence, scan reports a record only after checksum equality and bounds, records_after filters strictly by sequence. The zero sentinel is written only where pending_bytes < region_size (a full ring has no free slot). On the open path every value placed in EmbeddedWal.sequence derives from Header.wal_sequence or the handle's own counters, so numbering continues after the checkpoint.",
         note="Not decided: the exhaustive state-space claim over operation sequences and sizes (value reasoning). The rule found a genuine defect on the pinned tree (sentinel wrap), repaired by fix commit f7468a8.",
         design_ref="DESIGN.md §4 C05"),
     "C01": dict(
@@ -186,8 +186,8 @@ CLAIMED = {
     "C32": dict(
         technique="call-graph cycle analysis with guarded-edge removal (depth guard = counter-vs-constant comparison + InvalidQuery + increment), precedence-ladder call layering, enum-arm table for Expr::evaluate + loop-carried self-wrapping detection for the expression tree depth",
         text="Partial: every recursion cycle among the functions reachable from parse_query is cut by a depth guard, the OR/AND/NOT consumers call each other in precedence order, "
-             "and Expr::evaluate maps Or/And/Not/Term to any/all/negation/delegation. No loop wraps an Expr into a recursive variant around its own previous value without the depth guard (the flattening idiom of And/Or is recognised).",
-        note="Not decided: substring/phrase/field matching semantics (values), tokenizer totality. The rule found a genuine defect (unbounded recursion), repaired by fix commit 8cd7524.",
+             "and Expr::evaluate maps Or/And/Not/Term to any/all/negation/delegation. No loop wraps an Expr into a recursive variant around its own previous value without the depth guard (the flattening idiom of And/Or is recognised). No unwrap/expect on a query-derived Result/Option and no panic-family macro is reachable from parse_query.",
+        note="Not decided: substring/phrase/field matching semantics (values), compiler-inserted bounds/overflow checks in the tokenizer. The rule found a genuine defect (unbounded recursion), repaired by fix commit 8cd7524.",
         design_ref="DESIGN.md §4 C32"),
     "C22": dict(
         technique="two Engler-style checkers over the 900+ functions reachable from the untrusted-input entry points: explicit-assertion reachability (macro provenance) and range check of file-derived allocation sizes + guarded-subtraction checker for file-derived subtrahends + clamp check for loop-carried windows subtracted from a buffer length",
@@ -218,11 +218,11 @@ CLAIMED = {
         technique="who-may-call + closure-provenance of the staging operation, MIR dominance in with_staging_lock (rename after op Ok and sync; Err arm discards and restores), and a frozen reference table of in-place writer sets per public entry point computed on the call graph with staging closures cut, and type-graph coverage of file-offset fields by the WAL-growth offset adjuster",
         text="Partial (staging discipline): commit_from_records runs only inside a closure passed to with_staging_lock; the rename of the staged copy is dominated by op's Ok arm and a sync "
              "of the staging handle, the Err arm discards the staging file and restores file/wal/header/toc/data_end/generation/dirty; no public entry point gains a function that writes "
-             "the live file in place beyond the reviewed per-entry set; every u64 *offset field reachable in the type graph of Toc is moved by adjust_offsets_after_wal_growth, "
+             "the live file in place beyond the reviewed per-entry set; every u64 *offset field reachable in the type graph of Toc is moved by adjust_offsets_after_wal_growth for every manifest collection that holds it (per Option/Vec anchor, e.g. SegmentCatalog.tantivy_segments), "
              "which both growth paths call after the data shift and before the TOC rewrite.",
         note="Not decided: the state after a crash at each file-system mutation (crash points are runtime). The reviewed in-place paths (WAL append, WAL growth shift, tickets, "
              "commit_skip_indexes, vacuum, open-time recovery, doctor) are listed, not proved crash-atomic. The coverage rule found a genuine defect (five manifests not shifted on WAL growth), "
-             "repaired by fix commit d68ec9b. Known finding (open, feature replay): save_replay_sessions overwrites the committed TOC/footer in place.",
+             "repaired by fix commit d68ec9b. Candidates (not reproduced, feature-only collections index_segments / temporal_segments are not shifted in a default build). Known finding (open, feature replay): save_replay_sessions overwrites the committed TOC/footer in place.",
         design_ref="DESIGN.md §4 C02"),
     "C19": dict(
         technique="interprocedural path-provenance analysis of every file-system creation sink reachable from the public API (backward slices through local callees), RAII pairing of the staging object, dominance of ensure_single_file before the first open + edge-cut reachability inside ensure_single_file (only the None arm of Path::parent may bypass the probes)",
@@ -248,7 +248,7 @@ CLAIMED = {
         design_ref="DESIGN.md §4 C28"),
     "C29": dict(
         technique="sibling agreement between unlock_file_oneshot and unlock_file_stream (size/magic validation before Ok), writer/reader agreement of nonce derivation and chunk framing, dominance of decrypt success before plaintext write, header field coverage; configuration `encryption`",
-        text="Partial: both unlock siblings reach Ok only past a comparison of the produced size with header.original_size; lock and unlock derive chunk nonces and frame chunks identically; "
+        text="Partial: both unlock siblings reach Ok only past a comparison of the produced size with header.original_size; lock and unlock derive chunk nonces (same nonce-prefix bytes, counter placement and endianness, helper-aware) and frame chunks identically; "
              "plaintext is written only after the chunk authenticated; output goes through write_atomic; every header field written is read or validated. The size comparison precedes the publication of the output (inside the closure write_atomic commits on, or before the write_atomic call).",
         note="Not decided: AES-GCM/Argon2, byte equality of unlock(lock(f)). The sibling rule found a genuine defect (streaming unlock accepted a capsule truncated at a chunk boundary), "
              "repaired by fix commit d0b37d1. Untriaged candidate: streaming sibling does not validate the MV2 magic.",
